@@ -42,8 +42,8 @@ ASSUMPTIONS = [
     "dataclasses.make_dataclass builds the class from the (name, type, field) triples it is given (stdlib)",
     "the parse of the synthesised class is taken as a parameter: its outcome is the outcome of parsing the equivalent "
     "hand-written dataclass (checked on every case by the oracle, proved for nothing)",
-    "functools.lru_cache keys on (positional args, keyword items in call order) with == / hash (stdlib); the model's cache "
-    "key holds **defaults values up to Python equality (1 == 1.0 == True: open finding C20-cache-untyped-key)",
+    "functools.lru_cache(typed=True) keys on (positional args, keyword items in call order) and the TYPE of each value "
+    "(stdlib; since 4d0f313): the model's cache key holds the typed **defaults values (1, 1.0 and True are three keys)",
     "READING of 'the same object for the same callable': identity is claimed for identically WRITTEN calls only — "
     "config_for(f) / config_for(f, frozen=True) / ignore_args='b' vs ('b',) / a different order of **defaults are different "
     "cache keys and give different classes (Lean: c20_cache_spelling_witness); Partial[f] is config_for(f)",
@@ -648,13 +648,6 @@ def documented_help(block, name):
         if e["key"].split()[:1] == [name]:
             out.append(" ".join((e["desc"] + " " + " ".join(e["cont"])).split()))
     return out
-
-
-def prefix_keys(t, name):
-    """documented keys that merely START with `name` (another parameter's entry)"""
-    docs = t.get("docs") or {}
-    return [e["key"] for b in (docs.get("class"), docs.get("init")) if b is not None for e in b["entries"]
-            if e["key"].startswith(name) and e["key"].split()[:1] != [name]]
 
 
 def docs_malformed(t):
@@ -1410,7 +1403,7 @@ def _parse_for_model(plain):
 def _cache_key(call):
     ig = call["ignore"]
     return {"target": call["target"], "ignore": ig, "frozen": call["frozen"],
-            "defaults": [[k, _pyeq(v)] for k, v in call["overrides"]], "hashable": not call.get("unhashable_default", False)}
+            "defaults": [[k, v] for k, v in call["overrides"]], "hashable": not call.get("unhashable_default", False)}
 
 
 def _pyeq(src):
@@ -1467,7 +1460,7 @@ def model_case(case, obs):
 def _help_ambiguous(docs, name):
     """`set.pop()` over two or more distinct descriptions: which one is taken depends on the hash seed"""
     def cands(e):
-        return {v for k, v in e.get("entries", []) if k.startswith(name)}
+        return {v for k, v in e.get("entries", []) if k.split()[:1] == [name]}
 
     init = cands(docs["init_entries"])
     return len(init or cands(docs["class_entries"])) > 1
@@ -1751,23 +1744,6 @@ def _cls(p):
     return TY[p["ty"]]["cls"] if p.get("ty") in TY else None
 
 
-def _f_posonly_optional(case, obs, fail):
-    """a positional-only Optional[...] / `= None` parameter: argparse rejects `required=` for positionals at set-up"""
-    f = _front(fail)
-    return (case["op"] in ("call.main", "call.fields") and f.get("o") == "raise" and f.get("exc") == "TypeError"
-            and "'required' is an invalid argument for positionals" in (f.get("msg") or "")
-            and any(p["kind"] == "posOnly" and _cls(p) not in ("choice", "dc") and (_cls(p) == "optional" or p["dflt"] == "None")
-                    for p in _main_params(case)))
-
-
-def _f_posonly_bool(case, obs, fail):
-    """a positional-only bool parameter: BooleanOptionalAction.__call__ raises NotImplementedError for positionals"""
-    f = _front(fail)
-    return (case["op"] == "call.main" and f.get("o") == "raise" and f.get("exc") == "NotImplementedError"
-            and "positional arguments" in (f.get("msg") or "")
-            and any(p["kind"] == "posOnly" and p["ty"] == "bool" and p["dflt"] != "None" for p in _main_params(case)))
-
-
 def _f_posonly_tuple_default(case, obs, fail):
     """a positional-only fixed-length Tuple parameter with a default: nargs=N makes it required, the default is unusable"""
     f = _front(fail)
@@ -1790,42 +1766,7 @@ def _f_mutable_default(case, obs, fail):
     return False
 
 
-def _f_partial_posonly(case, obs, fail):
-    """Partial.__call__ passes every field by keyword: a target with a positional-only parameter cannot be called"""
-    f = _front(fail)
-    c = case["case"]
-    if case["op"] != "call.partial" or fail.get("clause") != "partial-call":
-        return False
-    ign = set(ignore_names(c["ignore"]))
-    return (f.get("stage") == "call" and f.get("o") == "raise" and f.get("exc") == "TypeError"
-            and "positional-only arguments passed as keyword" in (f.get("msg") or "")
-            and any(p["kind"] == "posOnly" and p["name"] not in ign and p["vty"] is not None for p in c["target"]["params"]))
-
-
-def _f_help_prefix(case, obs, fail):
-    """help lookup matches `key.startswith(name)`: a parameter picks up the text of a longer-named one"""
-    return (case["op"] == "call.config" and fail.get("clause") == "help" and fail.get("param") is not None
-            and bool(prefix_keys(case["case"]["target"], fail["param"])))
-
-
-def _f_cache_untyped(case, obs, fail):
-    """lru_cache(typed=False): config_for(f, b=1) / b=1.0 / b=True share one cache entry"""
-    if case["op"] != "call.cache" or fail.get("clause") != "cache-typed":
-        return False
-    calls = case["case"]["calls"]
-    keys = {}
-    for call in calls:
-        for k, v in call["overrides"]:
-            keys.setdefault((call["target"], k, _pyeq(v)), set()).add(v)
-    return any(len(v) > 1 for v in keys.values())
-
-
 FINDINGS = {
-    "C20-partial-posonly": _f_partial_posonly,
-    "C20-help-prefix-match": _f_help_prefix,
-    "C20-cache-untyped-key": _f_cache_untyped,
-    "C20-posonly-optional": _f_posonly_optional,
-    "C20-posonly-bool": _f_posonly_bool,
     "C20-posonly-tuple-default": _f_posonly_tuple_default,
     "C20-mutable-default": _f_mutable_default,
 }
@@ -2000,16 +1941,20 @@ MANIFEST = {
              "positionally in signature order (stable-sort lemma), all others by keyword (c20_main_args, c20_main_run); (b) the "
              "fields `main` synthesises agree item by item (name, type class, default/factory, positional) with the "
              "independently written equivalent dataclass and meet the same fate in add_argument (c20_fields_agree, "
-             "c20_all_types), and set-up succeeds EXACTLY when no parameter is a positional-only Optional/`= None` one — bool "
-             "included (closed form c20_addArgument_closed, c20_setup_ok, c20_setup_fails); (c) config_for's field list is "
+             "c20_all_types), and set-up succeeds for EVERY signature — every type class incl. bool and Optional, every kind "
+             "incl. positional-only, every default (closed form c20_addArgument_closed, c20_setup_ok); (c) config_for's field list is "
              "exactly the typed, non-ignored parameters with the override/signature default (c20_config_fields/_options, under "
              "the exclusions Inferable and NoMutableCfg, each with a witness); (d) Partial.__call__: explicit kwargs win, "
-             "ignored/skipped parameters keep the callee's default, and the target binds exactly those values for targets "
-             "without positional-only parameters (c20_partial_call, c20_config_then_call); (e) the unbounded cache returns the "
-             "stored class after any number of other calls (c20_cached); (f) an Args entry splits at its first colon only. "
-             "NAMED GAPS, each refuted by a `_witness` theorem and recorded as an open finding with a replay: "
-             "C20-posonly-optional, C20-posonly-bool, C20-posonly-tuple-default, C20-mutable-default, C20-partial-posonly, "
-             "C20-help-prefix-match, C20-cache-untyped-key. SAMPLED ONLY (no theorem; the parse is a parameter of the model): "
+             "ignored/skipped parameters keep the callee's default, positional-only fields are moved out of the keyword dict and "
+             "passed positionally in signature order, and the target binds exactly those values (movePositional_spec, "
+             "c20_partial_call, c20_config_then_call); (e) the unbounded cache returns the stored class after any number of "
+             "other calls and distinguishes any two different (typed) keys (c20_cached, c20_cache_typed); a help candidate is "
+             "always the parameter's own docstring entry (c20_help_exact, c20_help_undocumented); (f) an Args entry splits at its first colon only. "
+             "NAMED GAPS, each refuted by a `_witness` theorem: C20-mutable-default and C20-posonly-tuple-default (open "
+             "findings with replays), and the residual corner of Partial.__call__ when a positional-only parameter WITHOUT "
+             "a value precedes a positional-only field (exclusion PosOnlySupplied, c20_partial_posonly_gap_witness). Repaired "
+             "since round 2 and now regression cases + examples: C20-posonly-optional (302ccc9), C20-posonly-bool (5a62da3), "
+             "C20-partial-posonly (8ca70f1), C20-help-prefix-match (f3cc715), C20-cache-untyped-key (4d0f313). SAMPLED ONLY (no theorem; the parse is a parameter of the model): "
              "that the synthesised class PARSES like the hand-written one — values, signature defaults for omitted options, "
              "nested groups for dataclass-typed parameters —, one parser option per field, help texts, and the identity of the "
              "real lru_cache; these are checked on every generated case by the oracle (recording stub vs. a direct call with "
